@@ -80,6 +80,16 @@ def gen_C10(rng, tier):
                 lines.append('D stats read %s %s %d' % (e, t, x))
             lines.append('D codes len %s %d' % (t, x))
             lines.append('D func len %s %d' % (t, x))
+    # lengths need no stream: the codes with an unbounded unary part at values beyond 2^32
+    bigv = [(1 << 31) - 1, (1 << 32) - 2, (1 << 32) - 1, 1 << 32, (1 << 32) + 1, 1 << 40, (1 << 63) - 1, 1 << 63, U64 - 1]
+    for (v, k) in [('Unary', None)] + [('Rice', k) for k in (0, 1, 5, 31, 32, 33, 63)] + [('Golomb', b) for b in (1, 2, 3, 10, (1 << 32) - 1, 1 << 32, (1 << 32) + 1, (1 << 63) + 1)]:
+        t = text(v, k)
+        for x in bigv:
+            lines.append('D codes len %s %d' % (t, x))
+            lines.append('D func len %s %d' % (t, x))
+    for name in ('UNARY', 'RICE0', 'RICE1', 'RICE10', 'GOLOMB1', 'GOLOMB2', 'GOLOMB10'):
+        for x in bigv:
+            lines.append('D const len %s %d' % (name, x))
     # ConstCode: every name (aliases included), every identifier 0..=50, identifiers beyond
     nc = 30 if quick else 80
     for name in CONST_NAMES:
